@@ -12,7 +12,7 @@ import random
 import time
 
 VERIF_DIR = os.path.dirname(os.path.dirname(os.path.abspath(__file__)))
-REPLAY_DIR = os.path.join(VERIF_DIR, 'replays')
+REPLAY_DIR = os.environ.get('DSIM_REPLAY_DIR') or os.path.join(VERIF_DIR, 'replays')
 EVIDENCE_DIR = os.path.join(VERIF_DIR, 'evidence')
 KNOWN_FINDINGS = os.path.join(VERIF_DIR, 'known_findings.json')
 
